@@ -256,6 +256,10 @@ for si in range(nsets):
             if not same and i != j and eq:
                 fail("C19:hill-equal-for-different-counts", "%s and %s have equal Hill forms" % (forms[i][0], forms[j][0]))
         # --- a formula written in Hill order and parsed from the string equals its own Hill form
+        # (atoms differing only in charge are written in the order the implementation itself puts them:
+        # the documentation does not say which charge comes first)
+        impl_pos = {atom_key(a): k for k, a in enumerate(hill_atoms(hills[0])) if core.isatom(a)}
+        expected = sorted(atoms, key=lambda a: (doc_key(a)[:3], impl_pos.get(atom_key(a), 0)))
         ordered = []
         texts = ["".join(atom_text(a) + count_text(ref[atom_key(a)]) for a in expected)]
         if n >= 3:
@@ -269,7 +273,7 @@ for si in range(nsets):
                                              "true" if eq else "false"))
             stats["ordered"] += 1
             patoms = [fr for c, fr in p.structure]
-            if not all(core.isatom(x) for x in patoms) or order_defect(patoms)[0]:
+            if not all(core.isatom(x) for x in patoms) or order_defect(patoms)[0] not in (None, CHARGE):
                 fail("C19:harness-ordered-string", "formula(%r) did not parse to the atoms in the order written: %r"
                      % (text, p.structure))
                 continue
